@@ -112,6 +112,94 @@ def build(c, key):
     return item, tys, params
 
 
+# ---------------------------------------------------------------------------------------------- type shapes
+SHAPE_PRELUDE = (PRELUDE + "pub struct W2<A, B>(pub A, pub B);\n"
+                 "impl<A, B: fmt::Debug> fmt::Debug for W2<A, B> { fn fmt(&self, f: &mut fmt::Formatter<'_>) -> fmt::Result { self.1.fmt(f) } }\n"
+                 "pub trait TrQ { type Assoc; }\nimpl<X: ?Sized> TrQ for X { type Assoc = u8; }\n"
+                 "pub trait TrA<X: ?Sized>: fmt::Debug {}\npub trait TrO: fmt::Debug { type Out: ?Sized; }\n")
+
+
+def render_shape(t):
+    x = "T" if t[0] == "param" else "i32"
+    for w in t[1:]:
+        x = {"wrap": f"W<{x}>", "second": f"W2<u8, {x}>", "array": f"[{x}; 2]", "paren": f"({x})", "ptr": f"*const {x}",
+             "ref": f"&'static {x}", "slice": f"&'static [{x}]", "fn_in": f"fn({x}) -> u8", "fn_out": f"fn(u8) -> {x}",
+             "tuple": f"(u8, {x})", "dyn_arg": f"Box<dyn TrA<{x}>>", "dyn_assoc": f"Box<dyn TrO<Out = {x}>>",
+             "dyn_fn_in": f"Box<dyn Fn({x}) -> u8>", "dyn_fn_out": f"Box<dyn Fn(u8) -> {x}>",
+             "qself": f"<{x} as TrQ>::Assoc", "proj": f"{x}::Assoc"}[w]
+    return x
+
+
+def shapes_check(chk, tier, seed, replay):
+    """TypeShapes.tla: a field type is bounded iff the type parameter occurs in it, for every syntactic form
+    `contains_generics` distinguishes (in-process where-clauses for Debug and Display; rustc for Debug)."""
+    r = vlib.run_tlc("MC_TypeShapes", f"MC_TypeShapes_{tier}", workers=4, timeout=900, xmx="4g")
+    chk.add_tlc(r, "type shapes")
+    if not r.ok:
+        raise vlib.ToolError(f"TLC: {r.violation}\n{r.raw_tail[-1500:]}")
+    cases = {}
+    for c in r.cases:
+        ty = render_shape(c["t"])
+        cases["shape|" + ty] = (ty, c["needsBound"], c["t"])
+    if replay:
+        want = json.load(open(replay))["key"]
+        cases = {k: v for k, v in cases.items() if want.endswith(k)}
+    reqs = []
+    for k, (ty, need, t) in cases.items():
+        item = f"struct S<T: TrQ + 'static>({ty}, #[debug(skip)] core::marker::PhantomData<T>);"
+        reqs.append({"key": "Debug|" + k, "derive": "Debug", "item": item, "tokens": False})
+        item = f"#[display(\"{{_0}}\")] struct S<T: TrQ + 'static>({ty}, core::marker::PhantomData<T>);"
+        reqs.append({"key": "Display|" + k, "derive": "Display", "item": item, "tokens": False})
+    obs = vlib.run_inproc("expand", reqs)
+    for rq in reqs:
+        D, k = rq["key"].split("|", 1)
+        ty, need, t = cases[k]
+        o = obs[rq["key"]]
+        chk.cov["evaluations"] += 1
+        if need:
+            chk.cov["distinct_nontrivial"] += 1
+        if o["outcome"] != "ok":
+            chk.deviation(rq["key"], f"expansion with a field of type `{ty}`: {o['outcome']}: {o.get('msg')}", case={"item": rq["item"]},
+                          expected="Ok", observed=o, tags={"kind": "expand_" + o["outcome"], "shape": t})
+            continue
+        actual = set()
+        for im in o["impls"]:
+            for w in im["where"]:
+                p = re.split(r"(?<!:):(?!:)", w, maxsplit=1)
+                if len(p) == 2 and "fmt ::" in p[1]:
+                    actual.add((norm_ty(p[0]), p[1].strip().split("::")[-1].strip()))
+        has = (norm_ty(ty), D) in actual
+        if need and not has:
+            chk.deviation(rq["key"], f"a formatted field of type `{ty}` mentions the type parameter but gets no `{D}` bound "
+                          f"(where-clause: {sorted(actual)})", case={"item": rq["item"]}, expected=[ty, D], observed=sorted(actual),
+                          tags={"kind": "insufficient", "shape": t})
+        if not need and has and "T" in re.findall(r"[A-Za-z_]\w*", ty):
+            chk.deviation(rq["key"], f"excessive bound on `{ty}`", case={"item": rq["item"]}, expected="no bound",
+                          observed=sorted(actual), tags={"kind": "excessive", "shape": t})
+    chk.cov["traces_validated_against_impl"] += len(reqs)
+    # rustc: the Debug impl is usable with no user bound (T = i32) and stays available for T = NoFmt when T is not in the type
+    mods = []
+    for k, (ty, need, t) in cases.items():
+        if any(w in ("dyn_fn_in", "dyn_fn_out") for w in t[1:]):
+            continue   # `dyn Fn(..)` implements no formatting trait at all
+        inst = "i32" if need else "NoFmt"
+        mods.append((k, f"use super::*;\n#[derive(derive_more::Debug)]\npub struct S<T: TrQ + 'static>(pub {ty}, #[debug(skip)] pub core::marker::PhantomData<T>);\n"
+                        f"pub fn run() {{ fn has<X: fmt::Debug>() {{}} has::<S<{inst}>>(); report({json.dumps(k)}); }}"))
+    sel = vlib.cap_cases([k for k, _ in mods], seed, 600 if tier == "quick" else 6000)
+    mods = [m for m in mods if m[0] in sel]
+    obs2, failed, br = vlib.run_case_crate("c04_shapes", mods, prelude=SHAPE_PRELUDE, features=("display", "debug"),
+                                           target_dir=os.path.join(vlib.BUILD, "target-c04-0"))
+    for k, _ in mods:
+        ty, need, t = cases[k]
+        chk.cov["evaluations"] += 1
+        if k in failed:
+            chk.deviation("rustc|" + k, f"`derive(Debug)` on a generic struct with a field of type `{ty}` is not usable without user "
+                          "bounds: " + failed[k][0]["message"][:220], case={"type": ty}, expected="compiles", observed=failed[k][:3],
+                          tags={"kind": "rustc_insufficient" if need else "rustc_excessive", "shape": t})
+    chk.cov["traces_validated_against_impl"] += len(mods)
+    log(f"[C04] {len(cases)} type shapes: {len(reqs)} where-clauses, {len(mods)} compiled")
+
+
 def key_of(c):
     fs = ",".join(f"{f['p']}:{f['fa']}:{f['fref']}" for f in c["fields"])
     us = ",".join(f"{u['f']}{u['how']}{u['tr']}" for u in c["uses"])
@@ -160,7 +248,7 @@ def run(chk, tier, seed, replay):
         actual = set()
         for im in o["impls"]:
             for w in im["where"]:
-                p = w.split(":", 1)
+                p = re.split(r"(?<!:):(?!:)", w, maxsplit=1)
                 if len(p) == 2 and "fmt ::" in p[1]:
                     actual.add((norm_ty(p[0]), p[1].strip().split("::")[-1].strip()))
         required = {(norm_ty(tys[i - 1]), tr) for i, tr in doc}
@@ -231,5 +319,7 @@ def run(chk, tier, seed, replay):
                               tags={"kind": "rustc_" + kind, "level": c["level"], "hows": sorted({u["how"] for u in c["uses"]}),
                                     "static_ref_shadow": bool(shadow and "lifetime may not live long enough" in msg)})
         chk.cov["traces_validated_against_impl"] += len(shards[i])
+    if not replay or "shape|" in json.load(open(replay))["key"]:
+        shapes_check(chk, tier, seed, replay)
     chk.cov["rule"] = ("derived trait x attribute level (struct, variant, Debug field attributes, enum-level default, enum-level "
                        "wrapper) x field parameter assignment x placeholder reference kinds; non-trivial = at least one bound required")
